@@ -276,7 +276,9 @@ func checkCmd(id, tier string) int {
 		"determinism_selfcheck":              map[string]interface{}{"seeds": selfN, "processes": len(selfDigests), "gomaxprocs": []int{1, 4, 16}, "mismatches": selfMismatch},
 		"degraded":                           bi.degraded,
 		"instrumentation":                    bi.instrSummary,
-		"discarded_runs":                     m.Discarded,
+		// a handful at most, and which ones are reached depends on how many runs fit into the batch:
+		// reported as text so that nobody reads it as a measure of work done
+		"discarded_runs":                     fmt.Sprintf("%d of %d runs dropped unjudged (stall guard or trace budget hit where no clause is about it)", m.Discarded, m.Evaluations),
 		"max_steps_per_op":                   m.MaxOpSteps,
 		"max_step_cap_ratio":                 m.MaxCapRatio,
 		"max_logical_depth":                  m.MaxDepth,
